@@ -433,7 +433,20 @@ def P_C10 (v : Variant) (attr : Toks) (item : Item) (view : View) : Bool :=
 def entraitOwned (a : Attr) : Bool :=
   a.mockKind.isSome || a == entraitForTraitAttr
 
-def isCfg (a : Attr) : Bool := a.last == some "cfg"
+/-- the attribute's path is the single identifier `cfg` -/
+def isPlainCfg (a : Attr) : Bool :=
+  a.inner.head? == some (.ident "cfg") && a.inner.tail.head? != some (.punct ':')
+
+/-- what each generated method carries, in source order: nothing for a single function (the function, with all of
+    its attributes, is re-emitted once); for the functions of a module / impl block exactly their `cfg`
+    attributes, so that a disabled function disables its trait method and delegating method with it -/
+def mirroredAttrs (item : Item) : List (List Attr) :=
+  match item with
+  | .fn _ => [[]]
+  | _ => item.sourceFns.map (fun f => f.attrs.filter isPlainCfg)
+
+def memberAttrsOk (exp : List (List Attr)) (ms : List GenMember) : Bool :=
+  zipAll (fun c m => match m with | .fn as s _ => as == c && noParamAttrs s.inputs | .raw _ => true) exp ms
 
 def P_C18 (item : Item) (view : View) : Bool :=
   let src := item.attrs
@@ -442,10 +455,10 @@ def P_C18 (item : Item) (view : View) : Bool :=
   | .fn _ | .mod_ _ | .impl _ =>
       (traitsOf view.items).all (fun t =>
         t.attrs.all (fun a => entraitOwned a || reapplied a) &&
-        t.members.all (fun m => match m with | .fn as s _ => as.isEmpty && noParamAttrs s.inputs | .raw _ => true)) &&
+        memberAttrsOk (mirroredAttrs item) t.members) &&
       (implsOf view.items).all (fun m =>
         m.attrs.all (fun a => src.contains a && a.subKind == .asyncTrait) &&
-        m.members.all (fun g => match g with | .fn as s _ => as.isEmpty && noParamAttrs s.inputs | .raw _ => true))
+        memberAttrsOk (mirroredAttrs item) m.members)
   | .trait t =>
       match mainImpl? view with
       | some m =>
